@@ -128,4 +128,30 @@ theorem pp_spells (g : Grammar) (hg : g.wf = true) (e : E) (he : e.wf g = true) 
 example : Spells stdGrammar 2 exampleE (pp 2 exampleE) :=
   pp_spells stdGrammar stdGrammar_wf exampleE (by decide)
 
+/-! ## 6. No condition text has two meanings
+
+The parser is a function, so a text that spells two expressions forces them to mean the same:
+the grammar of spellings (any whitespace, redundant parentheses) is semantically unambiguous. -/
+
+theorem spelling_unambiguous (g : Grammar) (hg : g.wf = true) (e1 e2 : E) (s : Str)
+    (h1 : Spells g 2 e1 s) (h2 : Spells g 2 e2 s) :
+    ∀ dets ρ, e1.sem dets ρ = e2.sem dets ρ := by
+  intro dets ρ
+  obtain ⟨t1, ht1, hs1⟩ := parse_spells g hg e1 s [] h1 (by decide)
+  obtain ⟨t2, ht2, hs2⟩ := parse_spells g hg e2 s [] h2 (by decide)
+  rw [ht1] at ht2
+  cases ht2
+  rw [← hs1, ← hs2]
+
+/-- in particular for canonical spellings: equal text, equal meaning -/
+theorem pp_unambiguous (g : Grammar) (hg : g.wf = true) (e1 e2 : E) (he1 : e1.wf g = true)
+    (he2 : e2.wf g = true) (h : pp 2 e1 = pp 2 e2) :
+    ∀ dets ρ, e1.sem dets ρ = e2.sem dets ρ :=
+  spelling_unambiguous g hg e1 e2 (pp 2 e1) (pp_spells g hg e1 he1) (h ▸ pp_spells g hg e2 he2)
+
+/-- non-vacuity: `(a and b) and c` and `a and (b and c)` … the first is spelled `a and b and c`,
+the second `a and (b and c)`: different texts; and `a and b and c` is spelled by the first. -/
+example : pp 2 (E.and (.and (.id ['a']) (.id ['b'])) (.id ['c'])) = "a and b and c".toList
+    ∧ pp 2 (E.and (.id ['a']) (.and (.id ['b']) (.id ['c']))) = "a and (b and c)".toList := by decide
+
 end SigmaVerif.Props.C02
